@@ -48,6 +48,16 @@ class Obj:
         return f"<obj {self.name}>"
 
 
+class _NoArg:
+    ident = z3.IntVal(-1)
+
+    def __repr__(self):
+        return "<no argument>"
+
+
+NO_ARG = _NoArg()
+
+
 class SymList:
     """list of object identities: z3 array Int -> Int plus length"""
 
@@ -227,11 +237,15 @@ class Executor:
         if not (len(st.body) == 1 and isinstance(st.body[0], ast.Expr) and isinstance(st.body[0].value, ast.Call)):
             raise Unsupported("loop body outside the supported shape")
         call = st.body[0].value
-        if not (isinstance(call.func, ast.Attribute) and isinstance(call.func.value, ast.Name) and call.func.value.id == st.target.id and len(call.args) == 1):
-            raise Unsupported("loop body must be `<loop var>.<method>(<arg>)`")
-        arg = self.expr(call.args[0], s)
-        if not isinstance(arg, Obj):
-            raise Unsupported("callback argument must be an abstract object")
+        if not (isinstance(call.func, ast.Attribute) and isinstance(call.func.value, ast.Name) and call.func.value.id == st.target.id and len(call.args) <= 1
+                and not call.keywords):
+            raise Unsupported("loop body must be `<loop var>.<method>(<arg>)` or `<loop var>.<method>()`")
+        if call.args:
+            arg = self.expr(call.args[0], s)
+            if not isinstance(arg, Obj):
+                raise Unsupported("callback argument must be an abstract object")
+        else:
+            arg = NO_ARG  # ghost trace records (receiver, no argument)
         n, L = it.n, it.arr
         len0, c0, a0 = s.tr_len, s.tr_callee, s.tr_arg
         i = z3.Int(f"i!{next(self.fresh)}")
@@ -258,7 +272,7 @@ class Executor:
         s.pc.append(inv(n, cE, aE, lE))
         s.pc.append(n >= 0)
         s.tr_callee, s.tr_arg, s.tr_len = cE, aE, lE
-        s.events.append(Event("loop-deliveries", [it, arg], s.pc, kind="loop"))
+        s.events.append(Event(f"loop-deliveries:{call.func.attr}", [it, arg], s.pc, kind="loop"))
         return [s]
 
     # ---------------------------------------------------------------- assignment
